@@ -83,7 +83,7 @@ func c05xOffsetFiles() (out [][]byte) {
 
 func robC05xRun(c *Ctx) {
 	r := c.R.Fork()
-	nDocs := 4
+	nDocs := 3
 	if c.Thorough {
 		nDocs = 40
 	}
